@@ -5,6 +5,7 @@
 import Logg.Drive.C01
 import Logg.Drive.C03
 import Logg.Drive.C07
+import Logg.Drive.C10
 import Logg.Drive.C11
 import Logg.Drive.C12
 import Logg.Drive.C16
@@ -15,6 +16,7 @@ open Logg
 structure DriverState where
   c01 : GateState := { g := {}, levels := [] }
   c11 : List ModeBits := []
+  c10 : Tree := []
   c03 : Drive.C03.St := {}
   c13 : Drive.C03.St := {}
   c12 : List (Int × Int) := []
@@ -27,6 +29,7 @@ def dispatch (st : DriverState) (line : String) : DriverState × String :=
   | "C03" :: rest => let (s, o) := Drive.C03.step st.c03 rest; ({ st with c03 := s }, o)
   | "C13" :: rest => let (s, o) := Drive.C03.step st.c13 rest; ({ st with c13 := s }, o)
   | "C07" :: rest => (st, Drive.C07.step rest)
+  | "C10" :: rest => let (s, o) := Drive.C10.step st.c10 rest; ({ st with c10 := s }, o)
   | "C11" :: rest => let (s, o) := Drive.C11.step st.c11 rest; ({ st with c11 := s }, o)
   | "C12" :: rest => let (s, o) := Drive.C12.step st.c12 rest; ({ st with c12 := s }, o)
   | "C16" :: rest => let (s, o) := Drive.C16.step st.c16 rest; ({ st with c16 := s }, o)
